@@ -23,9 +23,11 @@ from harness import doubles
 
 RULE = ('fixture polynomial forward model (1-4 coefficients, linear/log modes, invalid when c0 > limit, optional NaN '
         'bins) with a native-grid observation (NativeBinner) or a real ArraySpectrum (FluxBinner, 3/4 columns, any '
-        'bin layout), optional observation-owned fitted parameter; real TransmissionModel (in-memory opacity; '
-        'isothermal / NPoint / Guillot) with invalid vectors (mixing ratio > 1, inverted NPoint pressure nodes, zero '
-        'Guillot opacities); fitted subsets with default linear/log priors or user priors (Uniform, LogUniform bounds / '
+        'bin layout), optional observation-owned fitted parameter; real TransmissionModel (in-memory H2O / CH4 opacity; '
+        'isothermal / NPoint with 1-3 intermediate nodes (any node temperature / pressure fitted) / Guillot; constant or '
+        'layer-dependent TwoLayerGas abundances) with invalid vectors (mixing ratios above unity in every layer or in part of '
+        'the atmosphere only, inverted NPoint pressure nodes, zero Guillot opacities), the reference being a model CONSTRUCTED '
+        'at the prior-transformed values; fitted subsets with default linear/log priors or user priors (Uniform, LogUniform bounds / '
         'lin_bounds, Gaussian, LogGaussian); sequences of 4-8 cube points incl. 0, 1 and invalid ones; all three '
         'wrappers. distinct non-trivial = distinct (sampler, stream, observation type, prior kinds, #fitted, has '
         'invalid point) with at least one finite likelihood')
@@ -34,6 +36,10 @@ ASSUMPTIONS = ['scipy.stats.uniform.ppf(x, loc, scale) = x*scale + loc on [0, 1]
                'np.nansum treats NaN entries as 0; np.sum / np.nansum modelled as left folds (pairwise order differs by rounding only)',
                'observation errors > 0 and finite, observation finite (exact fits, chi^2 == 0, are judged like any other point)',
                'forward model + binner are real code (parameter of the Lean model); binning itself is property C05',
+               'a real model constructed at given values (constructor arguments) is the forward model "evaluated at exactly '
+               'these values"; an atmosphere whose gas profiles (fresh gas objects on the model\'s pressure grid) sum to more '
+               'than one in some layer is invalid: Chemistry.mixProfile of the C10 model (driver_c10) decides, cross-checked '
+               'with the direct sum',
                'samplers replaced by recording doubles: what the real samplers do with the callbacks is out of scope',
                'rounding: compared to 1e-9 relative + 1e-12*(sum |log terms| + chi^2)']
 
@@ -82,6 +88,7 @@ SRC_SPECS = [
 ]
 
 SAMPLERS = ['nestle', 'multinest', 'polychord']
+USES_MODELS = ['C10']     # Chemistry.mixProfile: the mixture rule (sum of the gas profiles above unity in ANY layer = invalid)
 TWO_PI_SQRT = math.sqrt(2 * math.pi)
 _FX = {}
 _TMP = {}
@@ -250,18 +257,95 @@ def install_opacity():
     from taurex.opacity.interpolateopacity import InterpolatingOpacity
     r = np.random.Generator(np.random.PCG64(12345))
     xs = 10 ** (-21.0 + 2.5 * np.sin(TM_WN / 170.0)[None, None, :] + r.uniform(-0.3, 0.3, (3, 3, len(TM_WN))))
+    xs_ch4 = 10 ** (-21.5 + 2.0 * np.cos(TM_WN / 230.0)[None, None, :] + r.uniform(-0.3, 0.3, (3, 3, len(TM_WN))))
 
     class MemOpacity(InterpolatingOpacity):
-        def __init__(self):
-            super().__init__('MemOpacity:H2O', interpolation_mode='linear')
-        moleculeName = property(lambda self: 'H2O')
-        xsecGrid = property(lambda self: xs)
+        def __init__(self, mol='H2O', grid=xs):
+            super().__init__('MemOpacity:' + mol, interpolation_mode='linear')
+            self._mol, self._grid = mol, grid
+        moleculeName = property(lambda self: self._mol)
+        xsecGrid = property(lambda self: self._grid)
         wavenumberGrid = property(lambda self: TM_WN)
         temperatureGrid = property(lambda self: TM_T)
         pressureGrid = property(lambda self: TM_P)
     OpacityCache().clear_cache()
     OpacityCache().add_opacity(MemOpacity())
+    OpacityCache().add_opacity(MemOpacity('CH4', xs_ch4))     # only chemistries that contain CH4 use it
     _FX['opac'] = True
+
+
+def tm_gases(tspec):
+    """gas profiles of a real-model spec: `gases` (constant / two-layer profiles) or, in the first form of the spec, one
+    constant H2O abundance `h2o`"""
+    if tspec.get('gases') is not None:
+        return tspec['gases']
+    return [dict(mol='H2O', kind='constant', mix=tspec['h2o'])]
+
+
+def make_gas(g):
+    from taurex.data.profiles.chemistry import ConstantGas, TwoLayerGas
+    if g['kind'] == 'constant':
+        return ConstantGas(g['mol'], mix_ratio=g['mix'])
+    return TwoLayerGas(g['mol'], mix_ratio_surface=g['surface'], mix_ratio_top=g['top'], mix_ratio_P=g['P'],
+                       mix_ratio_smoothing=g.get('smooth', 10))
+
+
+def tm_at(m, values):
+    """the spec of the real model with the given parameter VALUES put where the constructors take them: the forward model
+    "evaluated at exactly these values" is then built from scratch, not reached through the fitted object's setters"""
+    import copy
+    m = copy.deepcopy(m)
+    t = m['temperature']
+    for n, v in values.items():
+        v = float(v)
+        if n == 'planet_radius':
+            m['radius'] = v
+        elif n == 'planet_mass':
+            m['mass'] = v
+        elif n in ('T', 'T_surface', 'T_top', 'T_irr', 'kappa_irr', 'kappa_v1', 'kappa_v2', 'alpha'):
+            t[n] = v
+        elif n.startswith('T_point'):
+            t['T_points'][int(n[7:]) - 1] = v
+        elif n.startswith('P_point'):
+            t['P_points'][int(n[7:]) - 1] = v
+        elif m.get('gases') is None and n == 'H2O':
+            m['h2o'] = v
+        else:
+            for g in m.get('gases') or []:
+                if g['kind'] == 'constant' and n == g['mol']:
+                    g['mix'] = v
+                    break
+                if g['kind'] == 'twolayer' and n in (g['mol'] + '_surface', g['mol'] + '_top', g['mol'] + '_P'):
+                    g[n[len(g['mol']) + 1:]] = v
+                    break
+            else:
+                raise C.InfraError('no constructor argument known for fitted parameter %r' % (n,))
+    return m
+
+
+def mixture_above_unity(ctx, mspec, sm):
+    """the property's own notion of an invalid mixture, independent of TaurexChemistry: the profiles of freshly built gas
+    objects on the model's pressure grid, summed per layer, exceed one in SOME layer — decided by the C10 model
+    (Chemistry.mixProfile through driver_c10) and directly"""
+    from taurex.data.profiles.pressure import SimplePressureProfile
+    n = int(mspec['nlayers'])
+    pp = SimplePressureProfile(nlayers=n, atm_min_pressure=1e-1, atm_max_pressure=1e6)
+    pp.compute_pressure_profile()
+    P = np.asarray(pp.profile, float)
+    T = np.full(n, 1000.0)
+    rows = []
+    for g in tm_gases(mspec):
+        go = make_gas(g)
+        go.initialize_profile(n, T, P, None)
+        rows.append([float(x) for x in np.asarray(go.mixProfile, float)])
+    total = np.sum(np.asarray(rows, float), axis=0)
+    direct = bool(np.any(total > 1.0))
+    tag = ctx.model('C10').call('c10.mix', C.N(2), C.L([0.17]), C.LL(rows), C.N(n)).nat()
+    ctx.check_eq('mixture above unity in some layer: Chemistry.mixProfile (C10 model) vs the summed gas profiles',
+                 tag == 1, direct, dict(sm, gases=tm_gases(mspec)))
+    if direct:
+        ctx.bucket('mixture:above-unity:' + ('every-layer' if bool(np.all(total > 1.0)) else 'some-layers-only'))
+    return direct
 
 
 def build_tm(tspec):
@@ -271,7 +355,7 @@ def build_tm(tspec):
     from taurex.data import Planet
     from taurex.data.stellar import BlackbodyStar
     from taurex.data.profiles.temperature import Isothermal, NPoint, Guillot2010
-    from taurex.data.profiles.chemistry import TaurexChemistry, ConstantGas
+    from taurex.data.profiles.chemistry import TaurexChemistry
     from taurex.contributions import AbsorptionContribution
     t = tspec['temperature']
     if t['type'] == 'isothermal':
@@ -283,7 +367,8 @@ def build_tm(tspec):
         tp = Guillot2010(T_irr=t['T_irr'], kappa_irr=t['kappa_irr'], kappa_v1=t['kappa_v1'],
                          kappa_v2=t['kappa_v2'], alpha=t['alpha'])
     chem = TaurexChemistry(fill_gases=['H2', 'He'], ratio=0.17)
-    chem.addGas(ConstantGas('H2O', mix_ratio=tspec['h2o']))
+    for g in tm_gases(tspec):
+        chem.addGas(make_gas(g))
     tm = TransmissionModel(planet=Planet(planet_mass=tspec['mass'], planet_radius=tspec['radius']),
                            star=BlackbodyStar(temperature=5800.0, radius=1.0), temperature_profile=tp,
                            chemistry=chem, nlayers=tspec['nlayers'], atm_min_pressure=1e-1, atm_max_pressure=1e6)
@@ -525,11 +610,23 @@ def eval_case(ctx, spec):
         params = [(10 ** x if d[3] else x) for d, x in zip(descs, v_or)]
         for n, p in zip(order, params):
             owner2[n][n] = p
+        ref = model2
+        if spec['model']['kind'] == 'tm':
+            # the real forward model "evaluated at exactly the prior-transformed parameter values": a model CONSTRUCTED at
+            # these values (independent of every setter the optimizer writes through and of what was evaluated before)
+            mspec3 = tm_at(spec['model'], dict(zip(order, params)))
         try:
-            nat = model2.model(wngrid=obs2.wavenumberGrid)
+            if spec['model']['kind'] == 'tm':
+                ref = build_tm(mspec3)
+            nat = ref.model(wngrid=obs2.wavenumberGrid)
             binned = np.asarray(obs2.create_binner().bindown(nat[0], nat[1])[1], float).ravel()
             invalid = False
         except Invalid:
+            binned, invalid = None, True
+        if spec['model']['kind'] == 'tm' and mixture_above_unity(ctx, mspec3, dict(sm, u=u)) and not invalid:
+            # mixing ratios above unity in part of the atmosphere: invalid by the property's own words, whatever the
+            # forward model made of it
+            ctx.bucket('mixture:above-unity-but-forward-model-evaluates')
             binned, invalid = None, True
         data2 = np.asarray(obs2.spectrum, float).ravel()
         # values written by update_model: parameter i must hold prior_i.prior(v_i)
@@ -748,28 +845,68 @@ def gen_poly_spec(rng, k):
 
 
 TM_FIT = {
-    'isothermal': [('T', 'linear', (400.0, 2500.0)), ('planet_radius', 'linear', (0.7, 1.4)), ('H2O', 'log', (1e-7, 30.0))],
-    'npoint': [('T_surface', 'linear', (900.0, 2200.0)), ('T_top', 'linear', (300.0, 1200.0)),
-               ('T_point1', 'linear', (500.0, 1800.0)), ('P_point1', 'log', (1e-3, 1e8)), ('H2O', 'log', (1e-7, 30.0))],
+    'isothermal': [('T', 'linear', (400.0, 2500.0)), ('planet_radius', 'linear', (0.7, 1.4))],
+    'npoint': [('T_surface', 'linear', (900.0, 2200.0)), ('T_top', 'linear', (300.0, 1200.0))],
     'guillot': [('T_irr', 'linear', (600.0, 2500.0)), ('kappa_irr', 'linear', (0.0, 0.05)),
-                ('kappa_v1', 'linear', (0.0, 0.02)), ('H2O', 'log', (1e-7, 30.0))],
+                ('kappa_v1', 'linear', (0.0, 0.02))],
 }
 
 
 def gen_tm_spec(rng, k):
     sampler = SAMPLERS[k % 3]
     ttype = ['isothermal', 'npoint', 'guillot'][(k // 3) % 3]
+    cands = list(TM_FIT[ttype])
     if ttype == 'isothermal':
         temp = dict(type='isothermal', T=float(rng.uniform(600, 2000)))
     elif ttype == 'npoint':
+        # 1-3 intermediate nodes (pressures decreasing from the surface), every node temperature / pressure can be fitted
+        nn = 1 + (k // 9) % 3
+        pp = sorted((float(10 ** x) for x in rng.uniform(0.5, 4.5, size=nn)), reverse=True)
+        if nn > 1:
+            pp = [float(10 ** x) for x in np.linspace(4.2, 1.0, nn) + rng.uniform(-0.4, 0.4, size=nn)]
         temp = dict(type='npoint', T_surface=float(rng.uniform(1200, 2000)), T_top=float(rng.uniform(400, 1000)),
-                    T_points=[float(rng.uniform(700, 1500))], P_points=[float(10 ** rng.uniform(1, 4))], smooth=10)
+                    T_points=[float(x) for x in rng.uniform(700, 1500, size=nn)], P_points=pp, smooth=10)
+        for i in range(nn):
+            cands.append(('T_point%d' % (i + 1), 'linear', (500.0, 1800.0)))
+        cands.append(('P_point1', 'log', (1e-3, 1e8)))
+        if nn > 1:
+            cands.append(('P_point%d' % nn, 'log', (1e-1, 1e5)))
     else:
         temp = dict(type='guillot', T_irr=float(rng.uniform(900, 2000)), kappa_irr=float(rng.uniform(0.005, 0.03)),
                     kappa_v1=float(rng.uniform(0.002, 0.01)), kappa_v2=float(rng.uniform(0.002, 0.01)),
                     alpha=float(rng.uniform(0.2, 0.8)))
     model = dict(kind='tm', temperature=temp, h2o=float(10 ** rng.uniform(-6, -3)), mass=float(rng.uniform(0.5, 2.0)),
                  radius=float(rng.uniform(0.8, 1.3)), nlayers=int(rng.integers(5, 16)))
+    # chemistry: every second case has a layer-dependent gas profile (TwoLayerGas) next to / instead of the constant one
+    layered = (k // 2) % 2 == 1
+    mix_fault = None
+    if layered:
+        shape = int(rng.integers(0, 3))
+        h2o, ch4 = model['h2o'], float(10 ** rng.uniform(-6, -0.2))
+
+        def two(mol, a):
+            return dict(mol=mol, kind='twolayer', surface=a, top=float(a * 10 ** rng.uniform(-3, 0)),
+                        P=float(10 ** rng.uniform(1.5, 4.5)), smooth=10)
+        if shape == 0:
+            gases = [two('H2O', h2o), dict(mol='CH4', kind='constant', mix=ch4)]
+        elif shape == 1:
+            gases = [dict(mol='H2O', kind='constant', mix=h2o), two('CH4', min(ch4, 1e-2))]
+        else:
+            gases = [two('H2O', h2o)]
+        model['gases'] = gases
+        lay = [g for g in gases if g['kind'] == 'twolayer'][0]['mol']
+        side = ['surface', 'top'][int(rng.integers(0, 2))]
+        other = 'top' if side == 'surface' else 'surface'
+        # the fitted side may exceed unity (alone or together with the other gases) while the other side stays small: the
+        # mixture is then invalid in PART of the atmosphere only
+        cands += [('%s_%s' % (lay, side), 'log', (1e-7, 30.0)), ('%s_%s' % (lay, other), 'log', (1e-8, 1e-3)),
+                  ('%s_P' % lay, 'log', (1e1, 1e5))]
+        for g in gases:
+            if g['kind'] == 'constant':
+                cands.append((g['mol'], 'log', (1e-7, 30.0) if g['mol'] == 'H2O' else (1e-7, 0.9)))
+        mix_fault = '%s_%s' % (lay, side)
+    else:
+        cands.append(('H2O', 'log', (1e-7, 30.0)))
     nobs = int(rng.integers(3, 11))
     wn_c = np.sort(rng.choice(np.arange(900.0, 2900.0, 55.0), size=nobs, replace=False))
     wl = (10000 / wn_c)[rng.permutation(nobs)]
@@ -787,14 +924,17 @@ def gen_tm_spec(rng, k):
     spectrum = spec_rows + err * rng.normal(size=nobs)
     obs = dict(type='array', wl=[float(x) for x in wl], spectrum=[float(x) for x in spectrum],
                err=[float(x) for x in err], widths=widths, wn=[])
-    cands = TM_FIT[ttype]
-    nfit = int(rng.integers(1, len(cands) + 1))
+    nfit = int(rng.integers(1, min(len(cands), 5) + 1))
     pick = sorted(rng.choice(len(cands), size=nfit, replace=False).tolist())
     pick = [pick[i] for i in rng.permutation(nfit)]
-    # every case can reach an invalid atmosphere: H2O up to 30 (> 1), P_point1 above the surface pressure,
-    # kappa_irr / kappa_v1 = 0 at the cube edge u = 0
-    fault = {'isothermal': 'H2O', 'npoint': ['P_point1', 'H2O'][int(rng.integers(0, 2))],
-             'guillot': ['kappa_irr', 'kappa_v1', 'H2O'][int(rng.integers(0, 3))]}[ttype]
+    # every case can reach an invalid atmosphere: a mixing ratio up to 30 (> 1, in every layer or - layered profiles - in part
+    # of the atmosphere), P_point1 above the surface pressure / nodes out of order, kappa_irr / kappa_v1 = 0 at the cube edge
+    if mix_fault is not None and rng.random() < 0.7:
+        fault = mix_fault
+    else:
+        gasf = 'H2O' if any(c[0] == 'H2O' for c in cands) else mix_fault
+        fault = {'isothermal': gasf, 'npoint': ['P_point1', gasf][int(rng.integers(0, 2))],
+                 'guillot': ['kappa_irr', 'kappa_v1', gasf][int(rng.integers(0, 3))]}[ttype]
     names = [cands[i][0] for i in pick]
     if fault not in names:
         names.append(fault)
@@ -805,18 +945,21 @@ def gen_tm_spec(rng, k):
         if mode == 'linear' and lo > 0 and rng.random() < 0.25:
             f['prior'] = dict(kind='uniform', a=hi, b=lo)
         fit.append(f)
-    spec = dict(stream='tm:' + ttype, fault=ttype + ':' + fault, sampler=sampler, multimodal=bool(rng.random() < 0.5), model=model, obs=obs, fit=fit)
+    spec = dict(stream='tm:' + ttype, fault=ttype + ':' + ('layered-gas' if fault == mix_fault else fault), sampler=sampler,
+                multimodal=bool(rng.random() < 0.5), model=model, obs=obs, fit=fit)
     m2, o2 = build_pair(dict(spec, obs=obs0))
     order, _ = fit_order(spec, m2, o2)
     col = order.index(fault)
+    gas_cols = [order.index(c[0]) for c in cands if c[0] in order and c[2][1] >= 0.9 and c[1] == 'log' and c[0] != fault
+                and not c[0].startswith('P_point') and not c[0].endswith('_P')]
     cubes = []
     for j in range(int(rng.integers(4, 8))):
         u = rng.uniform(0.05, 0.8, size=len(order))
-        if 'H2O' in order and fault != 'H2O':
-            u[order.index('H2O')] = rng.uniform(0.0, 0.6)
+        for gc in gas_cols:
+            u[gc] = rng.uniform(0.0, 0.6)
         bad = rng.random() < 0.4
-        if fault == 'H2O':
-            u[col] = rng.uniform(0.9, 1.0) if bad else rng.uniform(0.0, 0.7)
+        if fault == 'H2O' or fault == mix_fault:
+            u[col] = rng.uniform(0.8, 1.0) if bad else rng.uniform(0.0, 0.7)
         elif fault == 'P_point1':
             u[col] = rng.uniform(0.85, 1.0) if bad else rng.uniform(0.3, 0.6)
         else:
